@@ -13,6 +13,11 @@ import Proofs.PostProcessLeaves
 import Proofs.PostProcessDests
 import Proofs.PostProcessContent
 import Proofs.PostProcessAlias
+import Proofs.PostProcessMapped
+import Proofs.PostProcessChecked
+import Proofs.PostProcessAtomic
+import Proofs.PostProcessRecord
+import Proofs.PostProcessGate
 import Gen.Facts
 
 namespace Props.C13
@@ -22,6 +27,18 @@ open Martian.PostProcess
 elements of a multi-dimensional array down as arrays of one dimension less
 (not as values of the base element type).  Fails on a tree with defect F5. -/
 theorem dim_aware : Gen.postProcessDimAware = true := by decide
+
+/-- Every regenerated fact this file is stated against WAS extracted from the
+working tree (the extractor falls back to a committed default when its source
+pattern is not found; a defeated pattern must show up as a broken obligation,
+not as a note).  `dim_aware` and `restart_recovers_moved_outputs` are also
+covered behaviourally (multi-dimensional arrays in every stream; the crash
+streams); the writer / ordering / fork-directory facts restate this in their
+own statements because they are the only tie for what they say. -/
+theorem regenerated_facts_extracted :
+    Gen.postProcessDimAware_extracted = true ∧ Gen.postProcessRecoversMoved_extracted = true ∧
+    Gen.postProcessOutsWriters_extracted = true ∧ Gen.writeAtomicSteps_extracted = true ∧
+    Gen.postProcessForkDirs_extracted = true ∧ Gen.allOutsWriters_extracted = true := by decide
 
 /-! ### result_wellformed -/
 
@@ -192,6 +209,23 @@ example : noDupNames [("a", "", .file "txt"), ("b", "a.txt", .file "")] [] = fal
 
 example : pad (width 12) 3 = "03" ∧ pad (width 12) 11 = "11" := by decide
 
+/-- The name derived for an entry of a typed map (or an element of an array:
+no explicit out name) is an INJECTIVE function of the key, for every element
+type and all strings — keys are run-time data, the compile-time duplicate
+check cannot see them: distinct keys of one map never share a file or directory
+under outs/.  (A naming function that is not injective on keys makes
+`moveOutFile` take its "already moved" exit for the second key.)  The harness
+calls the real `GetOutFilename` on generated run-time keys (`k`, `k.<ext>`,
+`k.`, `.<ext>`, several dots, case variants, element-like names), compares it
+with `outFilename` and checks this injectivity on the real function. -/
+theorem map_entry_names_injective (e : Ty) (k1 k2 : String)
+    (h : outFilename e k1 "" = outFilename e k2 "") : k1 = k2 := outFilename_inj e k1 k2 h
+
+example : outFilename (.file "txt") "report" "" = "report.txt" ∧
+    outFilename (.file "txt") "report.txt" "" = "report.txt.txt" ∧
+    outFilename (.file "") "report.txt" "" = "report.txt" ∧
+    outFilename (.arr (.file "txt") 0) "report.txt" "" = "report.txt" := by decide
+
 /-! ### dest_injective and content_preserved for a whole output record -/
 
 /-- GLOBAL `dest_injective`.  For a signature that passed the compiler's checks
@@ -268,6 +302,99 @@ example : Clean ["ps"] ["ps", "outs"] exFS
     rw [List.mem_singleton.mp hm]
     decide
 
+/-- The side conditions of `content_preserved` (`apart`, `nonnest`, `status`,
+`free`) as ONE decidable check: `cleanB` is sound for `Clean`.  The driver
+evaluates `wfParams` and `cleanB` on every real input of the direct stream; the
+harness counts how often they held and raises a correspondence violation when
+they fail on a run whose leaves are all missing or regular files/directories
+inside the pipestance (the runs the manifest says the global theorem covers). -/
+theorem clean_check_sound (ps top : Path) (fs : FS) (params : List (String × String × Ty))
+    (outs : List (String × J)) (hwf : wfParams params = true)
+    (h : cleanB ps top fs (leavesRec params outs top) = true) :
+    Clean ps top fs (leavesRec params outs top) := cleanB_sound ps top fs params outs hwf h
+
+/-- non-vacuity of GLOBAL `content_preserved` on a record with struct + multi-dimensional array +
+typed map, six leaves, a directory output and a missing file: the signature is well formed and
+ALL side conditions (`Clean`: pairwise non-nested sources, apart from outs/, status, free
+destinations) hold, by evaluation of the decidable check. -/
+example : wfParams exSig3 = true ∧
+    cleanB ["ps"] ["ps", "outs"] exFS3 (leavesRec exSig3 exOuts3 ["ps", "outs"]) = true ∧
+    (leavesRec exSig3 exOuts3 ["ps", "outs"]).length = 6 := by decide
+
+example : Clean ["ps"] ["ps", "outs"] exFS3 (leavesRec exSig3 exOuts3 ["ps", "outs"]) :=
+  clean_check_sound _ _ _ _ _ (by decide) (by decide)
+
+/-- … and the theorem instantiated on it: after `processStructOuts` of the whole record the file
+INSIDE the directory output `r[0][0]` is at `outs/r/0/0/inner`, and the map entry `m.k1[0]` is at
+`outs/m/k1/0.bam`, with the contents the stage wrote. -/
+example :
+    (processStructOuts Gen.postProcessDimAware ["ps"] exSig3 (.obj exOuts3) ["ps", "outs"] exFS3).2.get
+      ["ps", "outs", "r", "0", "0", "inner"] = some (.file 3) ∧
+    (processStructOuts Gen.postProcessDimAware ["ps"] exSig3 (.obj exOuts3) ["ps", "outs"] exFS3).2.get
+      ["ps", "outs", "m", "k1", "0.bam"] = some (.file 5) := by
+  have hc := clean_check_sound ["ps"] ["ps", "outs"] exFS3 exSig3 exOuts3 (by decide) (by decide)
+  have hl : leavesRec exSig3 exOuts3 ["ps", "outs"] =
+      [⟨.str "/ps/MK/files/sf", ["ps", "outs", "s"], "f.txt"⟩, ⟨.str "/ps/MK/files/sg", ["ps", "outs", "s"], "out.bin"⟩,
+       ⟨.str "/ps/MK/files/d", ["ps", "outs", "r", "0"], "0"⟩, ⟨.str "/ps/MK/files/nope", ["ps", "outs", "r", "0"], "1"⟩,
+       ⟨.str "/ps/MK/files/r11", ["ps", "outs", "r", "1"], "1"⟩,
+       ⟨.str "/ps/MK/files/m0", ["ps", "outs", "m", "k1"], "0.bam"⟩] := by rfl
+  constructor
+  · have := content_preserved ["ps"] ["ps", "outs"] exFS3 exSig3 exOuts3 (by decide) hc.apart hc.nonnest
+      hc.status hc.free ⟨.str "/ps/MK/files/d", ["ps", "outs", "r", "0"], "0"⟩ (by rw [hl]; simp)
+      ["ps", "MK", "files", "d"] .dir (by decide) (by decide) ["inner"]
+    have h3 : exFS3.get ["ps", "MK", "files", "d", "inner"] = some (.file 3) := by decide
+    rw [← h3]
+    simpa [Leaf.dest] using this
+  · have := content_preserved ["ps"] ["ps", "outs"] exFS3 exSig3 exOuts3 (by decide) hc.apart hc.nonnest
+      hc.status hc.free ⟨.str "/ps/MK/files/m0", ["ps", "outs", "m", "k1"], "0.bam"⟩ (by rw [hl]; simp)
+      ["ps", "MK", "files", "m0"] (.file 5) (by decide) (by decide) []
+    have h5 : exFS3.get ["ps", "MK", "files", "m0"] = some (.file 5) := by decide
+    rw [← h5]
+    simpa [Leaf.dest] using this
+
+/-- GLOBAL `content_preserved`, the RECORD half ("those values point at the
+materialised locations").  Same hypotheses as `content_preserved`.  The
+rewritten record is EXACTLY the input record with every file leaf replaced by
+`expectVal fs leaf` (`pureOuts`: the traversal with the leaf calls answered by
+that function, no file system involved): the path string of the leaf's
+destination when its source existed, null when the source is missing (or the
+value is the empty string / not an absolute path), the value itself when it is
+not a string; everything that is not a file leaf as `shape_preserved` says.
+Together with `content_preserved`: every recorded path names the destination
+that holds the leaf's content. -/
+theorem content_preserved_record (ps top : Path) (fs : FS) (params : List (String × String × Ty))
+    (outs : List (String × J)) (hwf : wfParams params = true)
+    (apart : ∀ l ∈ leavesRec params outs top, ∀ p, l.src = some p → ¬ p <+: top ∧ ¬ top <+: p)
+    (nonnest : (leavesRec params outs top).Pairwise (fun l1 l2 => ∀ p1 p2, l1.src = some p1 →
+      l2.src = some p2 → ¬ p1 <+: p2 ∧ ¬ p2 <+: p1))
+    (status : ∀ l ∈ leavesRec params outs top, ∀ p, l.src = some p →
+      fs.get p = none ∨ ∃ e, fs.get p = some e ∧ e.isLink = false ∧ inside ps p = true)
+    (free : ∀ l ∈ leavesRec params outs top, fs.get l.dest = none) :
+    (processStructOuts Gen.postProcessDimAware ps params (.obj outs) top fs).1 =
+      .obj (pureOuts (expectVal fs) params outs top) := by
+  rw [dim_aware]
+  exact record_values ps top fs params outs (clean_record ps top fs params outs hwf apart nonnest status free)
+
+/-- what `expectVal` says, leaf by leaf -/
+example :
+    expectVal exFS3 ⟨.str "/ps/MK/files/d", ["ps", "outs", "r", "0"], "0"⟩ = .str "/ps/outs/r/0/0" ∧
+    expectVal exFS3 ⟨.str "/ps/MK/files/nope", ["ps", "outs", "r", "0"], "1"⟩ = .null ∧
+    expectVal exFS3 ⟨.str "", ["ps", "outs"], "x"⟩ = .null ∧
+    expectVal exFS3 ⟨.lit "17", ["ps", "outs"], "x"⟩ = .lit "17" := by
+  refine ⟨?_, ?_, ?_, ?_⟩ <;> rfl
+
+/-- … and the whole rewritten record of the six-leaf example (as the writer's token stream):
+struct members, the directory and the missing file in the 2-dimensional array, the map entry. -/
+example :
+    emit (processStructOuts Gen.postProcessDimAware ["ps"] exSig3 (.obj exOuts3) ["ps", "outs"] exFS3).1 =
+    emit (.obj [("s", .obj [("f", .str "/ps/outs/s/f.txt"), ("g", .str "/ps/outs/s/out.bin"), ("n", .lit "3")]),
+      ("r", .arr [.arr [.str "/ps/outs/r/0/0", .null], .arr [.null, .str "/ps/outs/r/1/1"]]),
+      ("m", .obj [("b", .arr []), ("k1", .arr [.str "/ps/outs/m/k1/0.bam"])])]) := by
+  have hc := clean_check_sound ["ps"] ["ps", "outs"] exFS3 exSig3 exOuts3 (by decide) (by decide)
+  rw [content_preserved_record ["ps"] ["ps", "outs"] exFS3 exSig3 exOuts3 (by decide) hc.apart hc.nonnest
+    hc.status hc.free]
+  decide
+
 /-- Negative witness (known finding `C13:overlapping-outputs`, in the model):
 a directory output `d` and a file output `f` naming `d/inner`.  The sources are
 nested, and after the traversal `outs/f` does NOT hold the content of
@@ -335,6 +462,144 @@ theorem shape_preserved_mapped (ps : Path) (params : List (String × String × T
 
 example (xs ys : List J) (R : J → J → Prop) (h : All2 R xs ys) : ys.length = xs.length := h.length_eq
 
+/-! ### the verification gate makes the legal-key filter dead code -/
+
+/-- A fork completes only when its outputs pass output verification; for typed
+maps `TypedMapType.IsValidJson` demands legal file names as keys exactly when
+the map is a directory kind (`keysVerified`, compared with the real
+`ValidateOutputs` on every input of the direct stream).  For a value that
+passed the gate, `moveOutDir`'s filter "skip keys that are not legal file
+names" drops NOTHING: at every typed-map node of directory kind, at every
+depth (through arrays of any dimension, structs, maps of maps), the rewritten
+value has ALL the (sorted, de-duplicated) keys of the input (`AllKeysKept`;
+`shape_preserved` alone only promises the LEGAL keys).  So a completed
+pipestance never loses an entry — provided the gate really checks what
+`keysVerified` says; weakening the gate breaks the correspondence and the
+monitor's "same keys" check on the real code. -/
+theorem verified_outputs_keep_all_keys (ps : Path) (ty : Ty) (id on : String) (v : J) (outs : Path) (fs : FS)
+    (hv : keysVerified ty v = true) :
+    AllKeysKept ty v (moveOut Gen.postProcessDimAware ps ty id on v outs fs).1 :=
+  allKeysKept_of_shape ty v _ hv (shape_preserved ps ty id on v outs fs)
+
+/-- non-vacuity: a map of structs with files under legal keys passes the gate; with a key `a/b`,
+`..` or the empty string it does not; a map of plain numbers may have any keys -/
+example :
+    keysVerified (.tmap (.struct [("n", "", .scalar), ("report", "", .file "txt")]))
+      (.obj [("s1", .obj [("n", .lit "1"), ("report", .str "/ps/f")]), ("report.txt", .null)]) = true ∧
+    keysVerified (.tmap (.struct [("n", "", .scalar), ("report", "", .file "txt")]))
+      (.obj [("a/b", .obj [("n", .lit "1"), ("report", .str "/ps/f")])]) = false ∧
+    keysVerified (.tmap (.arr (.file "") 0)) (.obj [("..", .arr [])]) = false ∧
+    keysVerified (.arr (.tmap (.file "bam")) 1) (.arr [.arr [.obj [("", .null)]]]) = false ∧
+    keysVerified (.tmap .scalar) (.obj [("a/b", .lit "1"), ("", .lit "2")]) = true := by decide
+
+/-- Negative witness (why the gate matters): an UNVERIFIED value — `map<STRUCT>` with the keys
+`a/b` and `ok` — loses the entry `a/b` in the rewritten value, whatever the file system: its
+non-file member `n` is gone from the record and its file is never looked at. -/
+theorem unverified_key_is_dropped (fs : FS) :
+    (match (moveOut true ["ps"] (.tmap (.struct [("n", "", .scalar), ("report", "", .file "txt")])) "m" ""
+        (.obj [("a/b", .obj [("n", .lit "1"), ("report", .null)]), ("ok", .obj [("n", .lit "2"), ("report", .null)])])
+        ["ps", "outs"] fs).1 with
+     | .obj kvs => kvs.map Prod.fst
+     | _ => []) = ["ok"] := by rfl
+
+/-! ### mapped top-level calls: from the fork key to its directory under outs/ -/
+
+/-- Regenerated obligation: in `Fork.postProcess` of the current source the
+directory handed to `processStructOuts` is `path.Join(outsPath, strconv.Itoa(i))`
+for fork `i` of a call mapped over an array, `path.Join(outsPath, k)` for fork
+key `k` of a call mapped over a typed map (the key itself, nothing in between —
+modelled by `joinKey`), and `outsPath` otherwise.  A change that routes the key
+through a sanitiser / encoder / different join breaks this. -/
+theorem mapped_fork_dir_is_joined_key :
+    Gen.postProcessForkDirs_extracted = true ∧
+    Gen.postProcessForkDirs =
+      [("ArrayType", "path.Join(outsPath, strconv.Itoa(<rangekey>))"),
+       ("TypedMapType", "path.Join(outsPath, <rangekey>)"),
+       ("default", "outsPath")] := by decide
+
+/-- A fork key that is a legal file name (`IsLegalUnixFilename`: 1–255 bytes,
+not `.`/`..`, no `/`, no NUL) is used verbatim as ONE directory below outs/. -/
+theorem mapped_key_dir_legal (outs : Path) (k : String) (h : legalName k = true) :
+    joinKey outs k = outs ++ [k] := joinKey_legal outs k h
+
+example : legalName "lib_A" = true ∧ legalName "é x" = true ∧ legalName "a." = true ∧ legalName "..a" = true ∧
+    legalName "lib/A" = false ∧ legalName "" = false ∧ legalName ".." = false := by decide
+
+/-- Distinct fork keys that are all legal file names get directories that are
+pairwise incomparable and lie below outs/ (`keysSeparable`).  `keysSeparable`
+is decidable and weaker than legality: `{"lib/A", "lib_A"}` is separable too. -/
+theorem mapped_legal_keys_separable (outs : Path) (keys : List String) (hnd : keys.Nodup)
+    (hl : ∀ k ∈ keys, legalName k = true) : keysSeparable outs keys = true :=
+  legal_keys_separable outs keys hnd hl
+
+example : keysSeparable ["ps", "outs"] ["lib/A", "lib_A", "plain"] = true ∧
+    keysSeparable ["ps", "outs"] ["a", "A", "a.", ".a", "a_b", "é"] = true := by decide
+
+/-- `dest_injective` ACROSS the forks of a top-level call mapped over a typed
+map.  Well-formed signature, any per-key records, fork keys whose directories
+are separable: the `moveOutFile` calls of ALL forks (`leavesMap`; third
+conjunct: the file-system effect of `postMap` is fork after fork "create the
+fork's directory, then the left fold of `moveOutFile` over the fork's leaves")
+have pairwise INCOMPARABLE destinations — no (key, leaf) shares a destination
+with, or is nested in, another (key', leaf') — and every destination lies below
+outs/.  Without separability the statement is false
+(`mapped_key_dirs_not_injective`, `mapped_colliding_keys_second_skipped`). -/
+theorem dest_injective_mapped (params : List (String × String × Ty)) (top : Path) (kvs : List (String × J))
+    (h : wfParams params = true) (hs : keysSeparable top (kvs.map Prod.fst) = true) :
+    (leavesMap params top kvs).Pairwise LeafIncomp ∧
+    ((leavesMap params top kvs).map Leaf.dest).Nodup ∧
+    (∀ l ∈ leavesMap params top kvs, Under top l.dest) ∧
+    (∀ ps fs, (postMap Gen.postProcessDimAware ps params top kvs fs).2 = runForks ps params top kvs fs) := by
+  refine ⟨leavesMap_pairwise params top kvs h hs, pairwise_incomp_nodup (leavesMap_pairwise params top kvs h hs),
+    leavesMap_under params top kvs h hs, fun ps fs => ?_⟩
+  rw [dim_aware]
+  exact postMap_run ps params top kvs fs
+
+/-- non-vacuity: the seeded scenario's keys with a file, an array of files and a scalar -/
+example : wfParams [("report", "", .file "txt"), ("parts", "", .arr (.file "") 0), ("count", "", .scalar)] = true ∧
+    keysSeparable ["ps", "outs"]
+      ([("lib/A", J.obj []), ("lib_A", J.obj []), ("plain", J.obj [])].map Prod.fst) = true := by decide
+
+/-- Negative witness, key → directory (what `path.Join` does with keys that are
+not legal file names; the harness replays each line on the real code): the
+keys `a`, `a/`, `./a`, `a/.`, `x/../a` share ONE directory; `""` and `"."`
+are outs/ itself; `".."` is the pipestance directory (outside outs/);
+`"../x"` lies outside outs/; `"a/b"` is nested inside the directory of `"a"`;
+`"a//b"` and `"a/./b"` are the directory of `"a/b"`. -/
+theorem mapped_key_dirs_not_injective :
+    joinKey ["ps", "outs"] "a" = ["ps", "outs", "a"] ∧ joinKey ["ps", "outs"] "a/" = ["ps", "outs", "a"] ∧
+    joinKey ["ps", "outs"] "./a" = ["ps", "outs", "a"] ∧ joinKey ["ps", "outs"] "a/." = ["ps", "outs", "a"] ∧
+    joinKey ["ps", "outs"] "x/../a" = ["ps", "outs", "a"] ∧
+    joinKey ["ps", "outs"] "" = ["ps", "outs"] ∧ joinKey ["ps", "outs"] "." = ["ps", "outs"] ∧
+    joinKey ["ps", "outs"] ".." = ["ps"] ∧ joinKey ["ps", "outs"] "../x" = ["ps", "x"] ∧
+    joinKey ["ps", "outs"] "a/b" = ["ps", "outs", "a", "b"] ∧
+    joinKey ["ps", "outs"] "a//b" = ["ps", "outs", "a", "b"] ∧ joinKey ["ps", "outs"] "a/./b" = ["ps", "outs", "a", "b"] ∧
+    keysSeparable ["ps", "outs"] ["a", "a/"] = false ∧ keysSeparable ["ps", "outs"] ["a", "a/b"] = false ∧
+    keysSeparable ["ps", "outs"] ["", "x"] = false ∧ keysSeparable ["ps", "outs"] [".."] = false := by decide
+
+/-- Negative witness (known finding `C13:mapped-key-dirs-overlap`), whole run:
+`map call … split {"a": …, "a/": …}`, one `file r` output per fork, fork `a`
+processed first.  Both keys use the directory outs/a.  Fork `a/` finds its
+destination outs/a/r occupied, so `moveOutFile` takes its "already moved"
+exit: the record of `a/` still names the stage's file, that file is NOT moved,
+outs/a/r holds the content of fork `a`, and nothing is reported.  The harness
+replays this on the real code. -/
+theorem mapped_colliding_keys_second_skipped :
+    let r := postMap true ["ps"] [("r", "", .file "")] ["ps", "outs"]
+      [("a", .obj [("r", .str "/ps/MK/fork0/files/f")]), ("a/", .obj [("r", .str "/ps/MK/fork1/files/f")])] exFS2
+    r.1.map (fun kv => (kv.1, recStr kv.2 "r")) =
+      [("a", some "/ps/outs/a/r"), ("a/", some "/ps/MK/fork1/files/f")] ∧
+    r.2.get ["ps", "outs", "a", "r"] = some (.file 1) ∧
+    r.2.get ["ps", "MK", "fork1", "files", "f"] = some (.file 2) := by decide
+
+/-- Negative witness, a key that leaves outs/: with the single fork key `..`
+the output is materialised in the pipestance directory itself, not under outs/. -/
+theorem mapped_dotdot_key_escapes_outs :
+    let r := postMap true ["ps"] [("r", "", .file "")] ["ps", "outs"]
+      [("..", .obj [("r", .str "/ps/MK/fork0/files/f")])] exFS2
+    r.1.map (fun kv => (kv.1, recStr kv.2 "r")) = [("..", some "/ps/r")] ∧
+    r.2.get ["ps", "r"] = some (.file 1) ∧ r.2.get ["ps", "outs", "r"] = none := by decide
+
 /-! ### the record stays valid under a crash or an I/O fault -/
 
 /-- Regenerated obligations: on the post-processing path the `_outs` record is
@@ -342,14 +607,135 @@ written exactly once, with `Metadata.WriteAtomic`, and `writeAtomicAt` writes a
 temp file and then renames it over the target.  Replacing the call by an
 in-place writer (`Write`, `WriteRaw`, …) or re-ordering the steps breaks this. -/
 theorem outs_rewrite_is_atomic :
+    Gen.postProcessOutsWriters_extracted = true ∧ Gen.writeAtomicSteps_extracted = true ∧
     Gen.postProcessOutsWriters.map writerOfName = [some .atomic] ∧ Gen.writeAtomicSteps = atomicSteps := by
   decide
 
-/-- With the writer found in the source, however far the single write of the
-record gets before a crash or an I/O error, the record file holds either the
-complete old record or the complete new one — never a fragment.  (Under the
-stated OS assumption; the harness checks the same on the real code by running
-post-processing under RLIMIT_FSIZE and under kill -9.) -/
+/-- The record PATH under a cut write, on the file system of byte files
+(`BFS`; the steps of `writeAtomicAt` are `writeAtomicCut`: open `<target>.tmp`,
+its bytes, then `rename` — the regenerated `Gen.writeAtomicSteps` pins that
+order; the ONLY assumption is the atomicity of `rename(2)`, which is the
+semantics of `BFS.rename`).  For every writer the post-processing path uses
+(`Gen.postProcessOutsWriters`), every file system in which the record path
+holds `old`, every new record and EVERY cut point `k`:
+* the record path holds exactly `old` or exactly `new` — never a fragment;
+* it holds `old` as long as the rename has not happened (`k ≤ |new| + 1`) and
+  then the `.tmp` sibling holds the `k-1`-byte prefix of `new` (a torn temp
+  file is possible, a torn record is not); once the rename has happened it
+  holds `new` and the temp name is gone;
+* no other path changes.
+The fault streams observe exactly these pairs (record, temp sibling) on the
+real tree, and `writeAtomic` itself is run under RLIMIT_FSIZE against this
+function on every run. -/
+theorem record_path_old_or_new (fs : BFS) (target : Path) (old new : List UInt8) (k : Nat)
+    (h : fs target = some old) :
+    ∀ w ∈ Gen.postProcessOutsWriters.filterMap writerOfName,
+      (writeCut w fs target new k target = some old ∨ writeCut w fs target new k target = some new) ∧
+      (0 < k → k ≤ new.length + 1 →
+        writeCut w fs target new k target = some old ∧
+        writeCut w fs target new k (tmpPath target) = some (new.take (k - 1))) ∧
+      (new.length + 1 < k →
+        writeCut w fs target new k target = some new ∧ writeCut w fs target new k (tmpPath target) = none) ∧
+      (∀ q, q ≠ target → q ≠ tmpPath target → writeCut w fs target new k q = fs q) := by
+  intro w hw
+  have hws : Gen.postProcessOutsWriters.filterMap writerOfName = [.atomic] := by decide
+  rw [hws] at hw
+  rw [List.mem_singleton.mp hw]
+  obtain ⟨_, s1, s2, s3⟩ := writeAtomicCut_spec fs target new k
+  refine ⟨(writeAtomicCut_record fs target old new k h).1, fun h0 h1 => ?_, s2, s3⟩
+  exact ⟨(writeAtomicCut_record fs target old new k h).2.1 h1, (s1 h0 h1).2⟩
+
+/-- non-vacuity: `{}` replaced by `{"a":1}`, cut after the open and 3 bytes: record still `{}`, temp file `{"a` -/
+example :
+    let fs : BFS := fun q => if q = ["ps", "TOP", "fork0", "_outs"] then some [0x7B, 0x7D] else none
+    writeCut .atomic fs ["ps", "TOP", "fork0", "_outs"] [0x7B, 0x22, 0x61, 0x22, 0x3A, 0x31, 0x7D] 4
+        ["ps", "TOP", "fork0", "_outs"] = some [0x7B, 0x7D] ∧
+    writeCut .atomic fs ["ps", "TOP", "fork0", "_outs"] [0x7B, 0x22, 0x61, 0x22, 0x3A, 0x31, 0x7D] 4
+        ["ps", "TOP", "fork0", "_outs.tmp"] = some [0x7B, 0x22, 0x61] ∧
+    tmpPath ["ps", "TOP", "fork0", "_outs"] = ["ps", "TOP", "fork0", "_outs.tmp"] := by decide
+
+/-- Negative witness on the file system: the in-place writer (`os.WriteFile`)
+cut after the open and 3 bytes leaves the record PATH holding a fragment that
+is neither the old nor the new record; for every cut after the open the path
+holds the prefix written so far. -/
+theorem inplace_writer_tears_record_path :
+    (let fs : BFS := fun q => if q = ["ps", "TOP", "fork0", "_outs"] then some [0x7B, 0x7D] else none
+     writeCut .inplace fs ["ps", "TOP", "fork0", "_outs"] [0x7B, 0x22, 0x61, 0x22, 0x3A, 0x31, 0x7D] 4
+        ["ps", "TOP", "fork0", "_outs"] = some [0x7B, 0x22, 0x61]) ∧
+    (∀ (fs : BFS) target new k, 0 < k →
+      writeCut .inplace fs target new k target = some (new.take (k - 1))) :=
+  ⟨by decide, fun fs target new k h0 => writeInplaceCut_record fs target new k h0⟩
+
+/-- Negative witness: an in-place writer cut after 3 bytes leaves a fragment
+that is neither the old nor the new record. -/
+theorem inplace_writer_tears_record :
+    recordAfterFault .inplace [0x7B, 0x7D] [0x7B, 0x22, 0x61, 0x22, 0x3A, 0x31, 0x7D] 4 = [0x7B, 0x22, 0x61] ∧
+    recordAfterFault .inplace [0x7B, 0x7D] [0x7B, 0x22, 0x61, 0x22, 0x3A, 0x31, 0x7D] 4 ≠ [0x7B, 0x7D] ∧
+    recordAfterFault .inplace [0x7B, 0x7D] [0x7B, 0x22, 0x61, 0x22, 0x3A, 0x31, 0x7D] 4 ≠
+      [0x7B, 0x22, 0x61, 0x22, 0x3A, 0x31, 0x7D] := by decide
+
+/-! ### every writer of `_outs` -/
+
+/-- Regenerated obligation: the complete list of call sites in martian/ and
+cmd/ (tests and verif hooks excluded) that write the `_outs` metadata file —
+(site, Metadata method, atomic?, next publishing call in the same function,
+last publishing call that definitely precedes the write).
+`atomic` is derived from the BODY of the method (least fixpoint over the call
+graph of metadata.go / write_atomic_linux.go: it reaches `writeAtomicAt` and no
+`os.WriteFile`/`OpenFile`/`Create`), not from its name.  A new writer, a
+writer changed from atomic to in-place (or the reverse), or a write moved
+behind its completion marker changes this list. -/
+theorem outs_writers_enumerated :
+    Gen.allOutsWriters_extracted = true ∧
+    Gen.allOutsWriters =
+      [("martian/adapter/adapter.go:runMain", "Write", false, "UpdateJournal(OutsFile)", ""),
+       ("martian/core/post_process.go:Fork.postProcess", "WriteAtomic", true, "", ""),
+       ("martian/core/stage.go:Chunk.step", "Write", false, "runChunk", ""),
+       ("martian/core/stage.go:Fork.writeDisable", "Write", false, "skip", ""),
+       ("martian/core/stage.go:Fork.doJoin", "Write", false, "runJoin", ""),
+       ("martian/core/stage.go:Fork.doJoin", "WriteRawBytes", false, "WriteTime(CompleteFile)", ""),
+       ("martian/core/stage.go:Fork.doComplete", "WriteRaw", false, "WriteTime(CompleteFile)", ""),
+       ("martian/core/stage.go:Fork.doComplete", "Write", false, "WriteTime(CompleteFile)", ""),
+       ("martian/core/stage.go:Fork.doComplete", "WriteRaw", false, "WriteTime(CompleteFile)", ""),
+       ("martian/core/stage.go:Fork.stepPipeline", "Write", false, "WriteTime(CompleteFile)", "")] := by decide
+
+/-- What the list says, as checkable consequences: (1) the only atomic writer
+is the post-processing rewrite, and it is the only writer that REPLACES the
+record of an already completed fork (no publishing call follows it);
+(2) every in-place writer is followed, in the same function, by the call that
+publishes the record or starts the job that overwrites it (`WriteTime` of the
+completion marker, `skip` = `WriteTime(DisabledFile)`, `UpdateJournal(OutsFile)`
+in the job's adapter, `runChunk`/`runJoin`), and NO writer is preceded by such a
+call on its own control path: the in-place write of a record strictly precedes
+its completion marker, so a reader that waits for the marker never sees it half
+written; (3) the derived atomicity agrees with the classification by name used
+by `outs_rewrite_is_atomic`. -/
+theorem outs_writers_atomic_or_before_marker :
+    Gen.allOutsWriters_extracted = true ∧
+    (Gen.allOutsWriters.filter (fun w => w.2.2.1)).map (fun w => (w.1, w.2.1)) =
+      [("martian/core/post_process.go:Fork.postProcess", "WriteAtomic")] ∧
+    (∀ w ∈ Gen.allOutsWriters, w.2.2.1 = false → w.2.2.2.1 ≠ "") ∧
+    (∀ w ∈ Gen.allOutsWriters, w.2.2.2.1 = "" → w.2.2.1 = true) ∧
+    (∀ w ∈ Gen.allOutsWriters, w.2.2.2.2 = "") ∧
+    (∀ w ∈ Gen.allOutsWriters,
+      writerOfName w.2.1 = some (if w.2.2.1 then RecordWriter.atomic else RecordWriter.inplace)) := by decide
+
+/-! ### F5: multi-dimensional arrays (negative witness for the code before the repair) -/
+
+/-- With the element type the old `moveOutArrayDir` used (`dimAware = false`),
+a `file[][]` value `[["/ps/f"]]` is returned unchanged and the file is not
+moved, whatever the file system: nothing of it reaches outs/. -/
+theorem multidim_not_moved_before_fix (fs : FS) :
+    moveOut false ["ps"] (.arr (.file "") 1) "r" "" (.arr [.arr [.str "/ps/f"]]) ["ps", "outs"] fs
+      = (.arr [.arr [.str "/ps/f"]], fs) := by rfl
+
+/-! ### definitional unfoldings (documentation of the model, not guarantees) -/
+
+/-- `recordAfterFault` is the byte-level SUMMARY of what the record path holds:
+for the atomic writer it is DEFINED as "old until the rename, then new", so
+"old ∨ new" holds by definition.  The statement with content is
+`record_path_old_or_new` (file-system model, two steps, cut anywhere);
+`recordAfterFault_agrees` says the summary is what that model yields. -/
 theorem record_old_or_new (old new : List UInt8) (k : Nat) :
     ∀ w ∈ Gen.postProcessOutsWriters.filterMap writerOfName,
       recordAfterFault w old new k = old ∨ recordAfterFault w old new k = new := by
@@ -362,21 +748,10 @@ theorem record_old_or_new (old new : List UInt8) (k : Nat) :
   · exact Or.inr rfl
   · exact Or.inl rfl
 
-/-- Negative witness: an in-place writer cut after 3 bytes leaves a fragment
-that is neither the old nor the new record. -/
-theorem inplace_writer_tears_record :
-    recordAfterFault .inplace [0x7B, 0x7D] [0x7B, 0x22, 0x61, 0x22, 0x3A, 0x31, 0x7D] 4 = [0x7B, 0x22, 0x61] ∧
-    recordAfterFault .inplace [0x7B, 0x7D] [0x7B, 0x22, 0x61, 0x22, 0x3A, 0x31, 0x7D] 4 ≠ [0x7B, 0x7D] ∧
-    recordAfterFault .inplace [0x7B, 0x7D] [0x7B, 0x22, 0x61, 0x22, 0x3A, 0x31, 0x7D] 4 ≠
-      [0x7B, 0x22, 0x61, 0x22, 0x3A, 0x31, 0x7D] := by decide
-
-/-! ### F5: multi-dimensional arrays (negative witness for the code before the repair) -/
-
-/-- With the element type the old `moveOutArrayDir` used (`dimAware = false`),
-a `file[][]` value `[["/ps/f"]]` is returned unchanged and the file is not
-moved, whatever the file system: nothing of it reaches outs/. -/
-theorem multidim_not_moved_before_fix (fs : FS) :
-    moveOut false ["ps"] (.arr (.file "") 1) "r" "" (.arr [.arr [.str "/ps/f"]]) ["ps", "outs"] fs
-      = (.arr [.arr [.str "/ps/f"]], fs) := by rfl
+/-- the summary agrees with the file-system model, for both writers -/
+theorem recordAfterFault_agrees (w : RecordWriter) (fs : BFS) (target : Path) (old new : List UInt8) (k : Nat)
+    (h : fs target = some old) :
+    writeCut w fs target new k target = some (recordAfterFault w old new k) :=
+  recordAfterFault_eq w fs target old new k h
 
 end Props.C13
